@@ -32,7 +32,8 @@ LEVEL_NOTE = ("floating-point rounding is not modelled (tolerance run, rel 1e-9)
               "a - b*floor(a/b) for Python's float `%`; C15_trapz_bv_error bounds |T - integral| by h times the sum "
               "of per-cell oscillations, the step from oscillation sum to total variation of the PREM profile along "
               "a chord is a hypothesis (checked numerically by the search), discharged for monotone integrands "
-              "(C15_trapz_monotone_error) and for chords inside the outermost PREM shell (C15_prem_variation_top_shell); C15_grows_with_dip_partial proves only "
+              "(C15_trapz_monotone_error) and for chords inside the outermost PREM shell (C15_prem_variation_top_shell); C15_column_grows_with_dip_antitone proves the dip monotonicity of the exact column for any profile that is "
+              "antitone in r (PREM is not: its 6151-6346.6 km shell increases outwards); C15_grows_with_dip_partial proves only "
               "that the chord length (= uniform-density column) grows strictly with dip, the layered case is left to "
               "the monotonicity sweep of the search")
 ASSUMPTIONS = ["np.piecewise / np.linspace / np.trapz(np.trapezoid) / np.linalg.norm modelled by their specification"]
@@ -189,8 +190,13 @@ def correspondence(run):
     # ---- density
     for name, earth in ms.items():
         rs = radii_cases(run, name, earth)
-        arr = [float(v) for v in earth.density(np.array(rs))]
-        sca = [float(earth.density(r)) for r in rs]
+        try:
+            arr = [float(v) for v in earth.density(np.array(rs))]
+            sca = [float(earth.density(r)) for r in rs]
+        except Exception as e:      # noqa: BLE001
+            run.note_broken("correspondence: density of %s raised %s: %s" % (name, type(e).__name__, str(e)[:150]))
+            ok = False
+            continue
         if arr != sca:
             bad = [(r, a, s) for r, a, s in zip(rs, arr, sca) if a != s][:3]
             run.note_broken("correspondence: density scalar/array disagree for %s: (r, array, scalar) = %s" % (name, bad))
@@ -200,8 +206,13 @@ def correspondence(run):
         # the same function on integer-typed input (Python ints one by one, and an integer ndarray)
         ri = [0] + [int(x) for x in earth.radii] + [int(x) - 1 for x in earth.radii] + \
              [run.rng.randrange(0, int(earth.earth_radius * 1.05)) for _ in range(run.scale(20, 200))]
-        arr_i = [float(v) for v in np.asarray(earth.density(np.array(ri, dtype=np.int64)), dtype=float)]
-        sca_i = [float(earth.density(r)) for r in ri]
+        try:
+            arr_i = [float(v) for v in np.asarray(earth.density(np.array(ri, dtype=np.int64)), dtype=float)]
+            sca_i = [float(earth.density(r)) for r in ri]
+        except Exception as e:      # noqa: BLE001
+            run.note_broken("correspondence: density of %s on integer input raised %s: %s" % (name, type(e).__name__, str(e)[:150]))
+            ok = False
+            continue
         if arr_i != sca_i:
             bad = [(r, a, s_) for r, a, s_ in zip(ri, arr_i, sca_i) if a != s_][:3]
             run.note_broken("correspondence: density int scalar/int array disagree for %s: %s" % (name, bad))
@@ -373,14 +384,59 @@ def check_column(run, name, earth, ep, d, step):
     return T, I, bound
 
 
+def dens(obj, arg):
+    """the implementation's density; an exception is returned as text"""
+    try:
+        return obj.density(arg), None
+    except Exception as e:      # noqa: BLE001 - any failure of the implementation is a finding
+        return None, "%s: %s" % (type(e).__name__, str(e)[:200])
+
+
 def check_density(run, name, earth, rs):
-    arr = earth.density(np.array(rs))
+    arr, err = dens(earth, np.array(rs))
+    if err or np.shape(arr) != (len(rs),):
+        run.fail_input("density", {"model": name, "r": list(rs)}, observed=err or "shape %s" % (np.shape(arr),),
+                       what="density of a float64 array raised / returned another shape")
+        return
     for r, a in zip(rs, arr):
         want = ref_density(name, r)
-        s = float(earth.density(r))
+        sv, err = dens(earth, r)
+        if err or np.shape(sv) != ():
+            run.fail_input("density", {"model": name, "r": r}, observed=err or "shape %s" % (np.shape(sv),),
+                           what="density of a scalar raised / did not return a scalar")
+            return
+        s = float(sv)
         if not (fw.close(float(a), want, 1e-12, 0.0) and s == float(a)):
             run.fail_input("density", {"model": name, "r": r}, observed={"array": float(a), "scalar": s},
                            expected=want, what="density is not the reference shell value (or scalar != array)")
+
+
+def check_arguments_untouched(run, name, earth, ep, d, step, rs):
+    """caller-owned float64 arrays handed to slant_depth / density must come back unchanged, the result must not
+    depend on handing over arrays instead of lists, and a second call with the very same objects must agree"""
+    epa, da, ra = np.array(ep, dtype=float), np.array(d, dtype=float), np.array(rs, dtype=float)
+    ep0, d0, r0 = epa.copy(), da.copy(), ra.copy()
+    T_list, e0 = slant(earth, list(ep), list(d), step)
+    T1, e1 = slant(earth, epa, da, step)
+    T2, e2 = slant(earth, epa, da, step)
+    out, e3 = dens(earth, ra)
+    out2, e4 = dens(earth, ra)
+    bad = []
+    if e0 or e1 or e2 or e3 or e4:
+        bad.append("raised: %s" % (e0 or e1 or e2 or e3 or e4))
+    else:
+        if not (np.array_equal(epa, ep0) and np.array_equal(da, d0)):
+            bad.append("slant_depth modified the caller's endpoint/direction array")
+        if not np.array_equal(ra, r0):
+            bad.append("density modified the caller's radius array")
+        if not (T1 == T_list and T2 == T1):
+            bad.append("slant_depth differs between list / array / repeated call: %r %r %r" % (T_list, T1, T2))
+        if not np.array_equal(np.asarray(out), np.asarray(out2)) or np.shares_memory(np.asarray(out), ra):
+            bad.append("density result differs on repetition or shares memory with its argument")
+    if bad:
+        run.fail_input("arguments", {"model": name, "endpoint": list(ep), "direction": list(d), "step": step, "radii": list(rs)},
+                       observed={"endpoint_after": [float(x) for x in epa], "direction_after": [float(x) for x in da]},
+                       what="; ".join(bad))
 
 
 INPUT_CLASSES = ("int", "npint64", "list_int", "tuple_int", "array_int64", "array_int32", "list_float", "tuple_float",
@@ -432,13 +488,18 @@ def check_density_inputs(run, name, earth, vals, cls):
     except Exception as e:      # noqa: BLE001
         run.fail_input("density-input", inp, observed="%s: %s" % (type(e).__name__, e), what="density raised on %s input" % cls)
         return
+    if np.shape(out) != np.shape(arg):
+        run.fail_input("density-input", inp, observed="shape %s for input shape %s" % (np.shape(out), np.shape(arg)),
+                       what="density of %s input does not have the shape of its argument" % cls)
+        return
     flat = [float(x) for x in np.asarray(out, dtype=float).ravel()]
     if len(flat) != len(f64):
         run.fail_input("density-input", inp, observed=flat, what="density returns %d values for %d radii" % (len(flat), len(f64)))
         return
     for r, got in zip(f64, flat):
         want = ref_density(name, r)
-        sca = float(earth.density(float(r)))
+        sv, serr = dens(earth, float(r))
+        sca = float("nan") if serr or np.shape(sv) != () else float(sv)
         if not (fw.close(got, want, tol, 0.0) and fw.close(got, sca, tol, 0.0)):
             run.fail_input("density-input", inp, observed={"r": r, "value": got, "float64_scalar": sca,
                                                           "dtype": str(getattr(out, "dtype", type(out).__name__))},
@@ -486,11 +547,15 @@ def check_state_reuse(run, history):
     for k, (key, ep, d, step) in enumerate(history):
         T, err = slant(objs[key], ep, d, step)
         ok, I, bound = (False, None, None) if err else column_ok(model_of[key], ep, d, step, T)
-        dens = float(objs[key].density(objs[key].earth_radius - 1.0))
-        dens_ok = fw.close(dens, ref_density(model_of[key], REF[model_of[key]]["R"] - 1.0), 1e-12, 0.0)
+        probe = [0.0, 0.3 * REF[model_of[key]]["R"], 0.6 * REF[model_of[key]]["R"], REF[model_of[key]]["R"] - 1.0,
+                 REF[model_of[key]]["R"]]
+        dv, derr = dens(objs[key], np.array(probe))
+        dens_ok = derr is None and np.shape(dv) == (len(probe),) and all(
+            fw.close(float(a), ref_density(model_of[key], r), 1e-12, 0.0) for a, r in zip(dv, probe))
+        dvals = derr or [float(x) for x in np.asarray(dv).ravel()]
         if not (ok and dens_ok):
             run.fail_input("state-reuse", {"model": model_of[key], "history": [[a, list(b), list(c), e] for a, b, c, e in history[:k + 1]]},
-                           observed=err or {"call": k, "object": key, "slant_depth": T, "crust_density": dens},
+                           observed=err or {"call": k, "object": key, "slant_depth": T, "densities": dvals},
                            expected={"integral_of_this_model": I, "allowed_error": bound},
                            what="after earlier calls on this or another Earth-model object, slant_depth/density no longer "
                                 "equal the profile of the model that was asked")
@@ -583,6 +648,10 @@ def search(run, deep):
             step = bound_step(earth.earth_radius, ep, d, step, 2e5)
             run.case(("oracle-column", name, tuple(ep), tuple(d), step))
             check_column(run, name, earth, ep, d, step)
+            if rng.random() < 0.3:
+                run.case(("oracle-arguments", name, tuple(ep), tuple(d), step))
+                check_arguments_untouched(run, name, earth, ep, d, max(step, 100.0),
+                                          [rng.uniform(0, 1.05 * earth.earth_radius) for _ in range(5)])
             check_invariance(run, name, earth, ep, d, max(step, 20.0), rng.uniform(0, 2 * math.pi),
                              10 ** rng.uniform(-2, 2))
         for i in range(3 * mult):
@@ -609,6 +678,8 @@ def replay(run, data):
     k = data.get("kind")
     if k == "density":
         check_density(run, name, earth, [i["r"]])
+    elif k == "arguments":
+        check_arguments_untouched(run, name, earth, i["endpoint"], i["direction"], i["step"], i["radii"])
     elif k == "state-reuse":
         check_state_reuse(run, [(a, b, c, e) for a, b, c, e in i["history"]])
     elif k == "density-input":
